@@ -34,14 +34,13 @@ def _containers(members, keys, max_len):
 def build_domain(tier):
     quick = tier == 'quick'
     # level 1: containers over all leaves
-    lvl1 = _containers(LEAVES, KEYS, 2)
+    lvl1 = _containers(LEAVES, KEYS, 2 if quick else 3)
     # level 2: containers over (mid leaves + thin level-1 containers)
-    l1_thin = _containers(LEAVES_THIN, KEYS[:2], 1 if quick else 2)
-    lvl2 = _containers(LEAVES_MID + l1_thin, KEYS[:2], 2)
+    l1_thin = _containers(LEAVES_THIN, KEYS[:2], 2)
+    lvl2 = _containers(LEAVES_MID + l1_thin, KEYS[:2 if quick else 3], 2)
     # level 3: containers over (thin leaves + thinner level-2 containers)
     l1_min = _containers(LEAVES_THIN[:2], KEYS[:1], 1)
-    l2_thin = _containers(LEAVES_THIN[:2] + l1_min, KEYS[:2],
-                          1 if quick else 2)
+    l2_thin = _containers(LEAVES_THIN[:2] + l1_min, KEYS[:2], 2)
     lvl3 = _containers(LEAVES_THIN + l2_thin, KEYS[:2], 2)
     seen = set()
     out = []
@@ -138,13 +137,13 @@ class ZkPayload:
         quick = tier == 'quick'
         return {
             'keys': KEYS, 'leaves(level1)': [cc._short(x) for x in LEAVES],
-            'level1': 'all lists and dicts of length 0..2 over leaves',
-            'level2': 'length 0..2 over %r + containers(length 0..%d over %r)'
-                      % (LEAVES_MID, 1 if quick else 2, LEAVES_THIN),
-            'level3': 'length 0..2 over %r + containers(length 0..%d over %r '
+            'level1': 'all lists and dicts of length 0..%d over leaves'
+                      % (2 if quick else 3),
+            'level2': 'length 0..2 over %r + containers(length 0..2 over %r)'
+                      % (LEAVES_MID, LEAVES_THIN),
+            'level3': 'length 0..2 over %r + containers(length 0..2 over %r '
                       '+ containers(length 0..1 over %r))'
-                      % (LEAVES_THIN, 1 if quick else 2, LEAVES_THIN[:2],
-                         LEAVES_THIN[:2]),
+                      % (LEAVES_THIN, LEAVES_THIN[:2], LEAVES_THIN[:2]),
             'sizes': self._domain(tier)[1],
             'orders': 'every dict also re-inserted in reverse key order',
         }
